@@ -94,7 +94,7 @@ class Abs:
         for g, d in self.groups.items():
             if self._group_random(g):
                 for n in d["members"]:
-                    if not self.params[n]["fix"]:
+                    if not self.params[n]["fix"] and n not in out:  # a parameter shared by two groups counts once
                         out.append(n)
         return out
 
@@ -160,6 +160,8 @@ def apply_abs_edit(a, edit, nids12=None, nobs12=None):
         a.params["IIV_CL"]["value"] = 0
     elif edit == "fixomv":  # fix_parameters(model, ['IIV_VC']) at its non-zero value
         a.params["IIV_VC"]["fix"] = True
+    elif edit == "shareq":  # QP1 = <old expression> * POP_CL: one theta in an individual parameter with and one without eta
+        a.groups["QP1"]["members"] = a.groups["QP1"]["members"] + ["POP_CL"]
     elif edit == "sub12":  # dataset restricted to the first 12 individuals
         a.nids = nids12
         a.nobs = nobs12
